@@ -57,6 +57,14 @@ type Scenario struct {
 	Order    []string      `json:"order,omitempty"`  // labels in the order in which the carriers are opened
 	BoundMs  int           `json:"bound_ms,omitempty"`
 	StaleMs  int           `json:"stale_ms,omitempty"`
+	// IDShape is the byte pattern of the sessions' ClientIDs (a modelled input
+	// class of spec/ServerMux_Gen): "random", "lastbyte" (equal but for the last
+	// byte = shared 7-byte prefix), "firstbyte" (equal but for the first byte),
+	// "prefix4" (shared 4-byte prefix), "zeroff" (all-zero and all-0xff).
+	// ConvEqual gives all sessions of the scenario the same KCP conversation id
+	// (the client chooses it, so nothing excludes it).
+	IDShape   string `json:"id_shape,omitempty"`
+	ConvEqual bool   `json:"conv_equal,omitempty"`
 	Origin   interface{}   `json:"origin,omitempty"` // the TLC behaviour this was made from (kept for replay files)
 }
 
@@ -92,6 +100,11 @@ type Rig struct {
 	Stale time.Duration
 	Bound time.Duration
 }
+
+// shapeBase makes structured ClientIDs and fixed conversation ids differ
+// between processes.
+var shapeBase = uint64(time.Now().UnixNano())
+var zeroffMu sync.Mutex
 
 type dummyAddr struct{}
 
@@ -187,6 +200,9 @@ func (r *Rig) convOwner(p []byte, rec *Recorder) int {
 	}
 	if v, ok := r.byConv.Load(binary.LittleEndian.Uint32(p)); ok {
 		s := v.(*session)
+		if s == nil {
+			return -3 // conversation id shared by two sessions (ConvEqual scenarios)
+		}
 		if s.sc.rec == rec {
 			return s.idx
 		}
@@ -357,6 +373,7 @@ type session struct {
 	streams []interface{}
 	conv    uint32
 	convSet int32
+	convFixed bool
 	failed  int32 // an application read/write returned an error: the scenario cannot complete any more
 
 	got    [2]int64 // bytes verified: up (at the server), down (at the client)
@@ -687,7 +704,7 @@ func (s *session) dialContext(ctx context.Context) (net.PacketConn, error) {
 			// plan is that the client goes away), then go on
 			switch presName(pl.Pres) {
 			case "noToken":
-				if !c.waitClosed(5 * time.Second) {
+				if !c.waitClosed(30 * time.Second) {
 					sr.rec.Struct("car.notclosed", "k", c.k)
 				} else {
 					sr.rec.Struct("car.srvclosed", "k", c.k)
@@ -801,7 +818,14 @@ func (s *session) readStream(r net.Conn, dir string, total int64) {
 // start builds the client packet stack exactly as client/lib newSession does.
 func (s *session) start() error {
 	s.pconn = turbotunnel.NewRedialPacketConn(dummyAddr{}, dummyAddr{}, s.dialContext)
-	conn, err := kcp.NewConn2(dummyAddr{}, nil, 0, 0, s.pconn)
+	var conn *kcp.UDPSession
+	var err error
+	if s.convFixed {
+		// NewConn2 is NewConn3 with a random conversation id
+		conn, err = kcp.NewConn3(s.conv, dummyAddr{}, nil, 0, 0, s.pconn)
+	} else {
+		conn, err = kcp.NewConn2(dummyAddr{}, nil, 0, 0, s.pconn)
+	}
 	if err != nil {
 		s.pconn.Close()
 		return err
@@ -810,7 +834,11 @@ func (s *session) start() error {
 	conn.SetWindowSize(65535, 65535)
 	conn.SetNoDelay(0, 0, 0, 1)
 	s.kconn = conn
-	s.sc.rig.byConv.Store(conn.GetConv(), s)
+	if prev, loaded := s.sc.rig.byConv.LoadOrStore(conn.GetConv(), s); loaded && prev.(*session) != s {
+		// two sessions with the same conversation id: packets can no longer be
+		// attributed by content
+		s.sc.rig.byConv.Store(conn.GetConv(), (*session)(nil))
+	}
 	cfg := smux.DefaultConfig()
 	cfg.Version = 2
 	cfg.KeepAliveTimeout = 10 * time.Minute
@@ -972,7 +1000,7 @@ func (sr *scenarioRun) runExtra(pl CarrierPlan, wg *sync.WaitGroup) {
 	}
 	switch presName(pl.Pres) {
 	case "noToken":
-		if c.waitClosed(5 * time.Second) {
+		if c.waitClosed(30 * time.Second) {
 			sr.rec.Struct("car.srvclosed", "k", c.k)
 		} else {
 			sr.rec.Struct("car.notclosed", "k", c.k)
@@ -1002,6 +1030,11 @@ func (sr *scenarioRun) runExtra(pl CarrierPlan, wg *sync.WaitGroup) {
 
 // Run executes one scenario against the shared server.
 func (r *Rig) Run(sc *Scenario, index int) *Result {
+	if sc.IDShape == "zeroff" {
+		// the all-zero and the all-0xff ClientID exist once per process
+		zeroffMu.Lock()
+		defer zeroffMu.Unlock()
+	}
 	t0 := time.Now()
 	sr := &scenarioRun{rig: r, sc: sc, rec: NewRecorder(), rng: vh.NewRng(sc.Seed), oindex: map[string]int{}, stale: r.Stale}
 	sr.ocond = sync.NewCond(&sr.omu)
@@ -1022,6 +1055,35 @@ func (r *Rig) Run(sc *Scenario, index int) *Result {
 		s := &session{sc: sr, idx: i, plan: pl}
 		h := sr.rng.Uint64() ^ uint64(index)<<40 ^ uint64(i)<<56
 		binary.BigEndian.PutUint64(s.id[:], h)
+		if i < 2 && sc.IDShape != "" && sc.IDShape != "random" {
+			// nonce: unique per scenario of this process, so that concurrent
+			// scenarios never share a ClientID; it sits in the bytes the shape
+			// says are equal
+			var nonce [8]byte
+			binary.BigEndian.PutUint64(nonce[:], shapeBase^uint64(index+1)*0x9e3779b97f4a7c15)
+			switch sc.IDShape {
+			case "lastbyte":
+				copy(s.id[:], nonce[:])
+				s.id[7] = byte(0x41 + i)
+			case "firstbyte":
+				copy(s.id[:], nonce[:])
+				s.id[0] = byte(0x41 + i)
+			case "prefix4":
+				copy(s.id[:4], nonce[:4])
+				binary.BigEndian.PutUint32(s.id[4:], uint32(h)|1)
+				if i == 1 {
+					binary.BigEndian.PutUint32(s.id[4:], ^uint32(h)&^1)
+				}
+			case "zeroff":
+				for j := range s.id {
+					s.id[j] = byte(-i) // 0x00.. for the first session, 0xff.. for the second
+				}
+			}
+		}
+		if sc.ConvEqual {
+			s.conv = uint32(shapeBase>>7) ^ uint32(index+1)*2654435761
+			s.convFixed = true
+		}
 		s.key[0], s.key[1] = sr.rng.Uint64(), sr.rng.Uint64()
 		for j := range pl.Carriers {
 			if pl.Carriers[j].Fault != nil {
